@@ -14,7 +14,7 @@ pub fn count(tier: Tier) -> u64 {
 /// A store sorted ON a reference: key = (position of the parent, rank among siblings). The sort key depends on
 /// the positions the sort produces, so the writer has to iterate until a fixed point; the model cannot predict
 /// "the" order, the oracle is self-consistency (see `run_sort_on_ref`).
-fn gen_sort_on_ref(seed: u64, k: u64) -> Value {
+pub fn gen_sort_on_ref(seed: u64, k: u64) -> Value {
     let mut rng = Rng::keyed(seed, "C15-tree", k);
     let b = *rng.pick(&[2u8, 3, 4]);
     let n = match b {
@@ -106,7 +106,7 @@ pub fn gen(seed: u64, tier: Tier, k: u64) -> Value {
     v
 }
 
-fn run_sort_on_ref(desc: &Value) -> CaseOut {
+pub fn run_sort_on_ref(desc: &Value, prop: &'static str) -> CaseOut {
     use jubako::reader::Range as _;
     let mut out = CaseOut::new();
     let case = DirCase::from_json(desc);
@@ -170,12 +170,12 @@ fn run_sort_on_ref(desc: &Value) -> CaseOut {
         }
         Ok(Err(e)) => {
             if let Some(w) = e.strip_prefix("VIOLATION ") {
-                out.violate(json!({"kind": "sort-on-reference", "profile": profile()}), format!("C15: {w}"), json!({}));
+                out.violate(json!({"kind": "sort-on-reference", "profile": profile()}), format!("{prop}: {w}"), json!({}));
             } else {
-                out.violate(json!({"kind": "sort-on-reference-error", "message": crate::util::normalize_msg(&e), "profile": profile()}), format!("C15: store sorted on a reference: {e}"), json!({}));
+                out.violate(json!({"kind": "sort-on-reference-error", "message": crate::util::normalize_msg(&e), "profile": profile()}), format!("{prop}: store sorted on a reference: {e}"), json!({}));
             }
         }
-        Err(p) => out.violate_panic("C15", "sort-on-reference", "tree", &p),
+        Err(p) => out.violate_panic(prop, "sort-on-reference", "tree", &p),
     }
     out.nontrivial = true;
     out
@@ -183,7 +183,7 @@ fn run_sort_on_ref(desc: &Value) -> CaseOut {
 
 pub fn run(desc: &Value, ctx: &Ctx) -> CaseOut {
     if jstr(desc, "mode") == "sort-on-ref" {
-        return run_sort_on_ref(desc);
+        return run_sort_on_ref(desc, "C15");
     }
     let mut out = run_dir_case(desc, ctx, &VerifyOpts { prop: "C15", handles: true });
     let case = DirCase::from_json(desc);
